@@ -1,0 +1,34 @@
+//go:build verif
+
+package gogen
+
+import (
+	"go/ast"
+	"go/token"
+	"io"
+
+	"github.com/goplus/gogen/internal/go/format"
+)
+
+// This file exists only for the external verification harness (build tag
+// "verif"); it adds exported wrappers and changes no behaviour.
+
+// VerifFormatNode prints an arbitrary syntax tree with the internal formatter.
+func VerifFormatNode(dst io.Writer, fset *token.FileSet, node any) error {
+	return format.Node(dst, fset, node)
+}
+
+// VerifIsTerminating runs the terminating-statement analysis on a statement
+// list; panicCalls are the call expressions to be treated as builtin panic calls.
+func VerifIsTerminating(list []ast.Stmt, panicCalls []*ast.CallExpr) bool {
+	c := &termChecker{panicCalls: make(map[*ast.CallExpr]none)}
+	for _, p := range panicCalls {
+		c.panicCalls[p] = none{}
+	}
+	return c.isTerminatingList(list, "")
+}
+
+// VerifHasBreak exposes hasBreak.
+func VerifHasBreak(s ast.Stmt, label string, isTarget bool) bool {
+	return hasBreak(s, label, isTarget)
+}
